@@ -109,7 +109,12 @@ class Intervals:
             else:
                 b = self.range_of(e[3], ty, depth + 1)
             r = self._binop(op, a, b, ty)
-            return r if r is not None else ty_range(ty)
+            if r is None:
+                return ty_range(ty)
+            # the result is a value of type `ty`: on the checked (dev-profile) MIR an out-of-range result panics instead
+            tlo, thi = ty_range(ty)
+            r = (max(r[0], tlo), min(r[1], thi))
+            return r if r[0] <= r[1] else ty_range(ty)
         if k == "un":
             if e[1] == "Not" and ty == "bool":
                 return (0, 1)
@@ -133,6 +138,8 @@ class Intervals:
                 a = self.range_of(e[2][0], ty, depth + 1)
                 b = self.range_of(e[2][1], ty, depth + 1)
                 return (max(a[0], b[0]), max(a[1], b[1]))
+            if re.search(r"::len$", name) and e[2] and e[2][0][0] == "call" and re.search(r"vec::from_elem$", e[2][0][1]) and len(e[2][0][2]) == 2:
+                return _isect(self.range_of(e[2][0][2][1], "usize", depth + 1), (0, (1 << 63) - 1))
             if re.search(r"::len$|::count$|::position$|::capacity$", name):
                 return _isect((0, (1 << 63) - 1), ty_range(ty))
             if re.search(r"saturating_sub$", name) and len(e[2]) == 2:
